@@ -51,7 +51,7 @@ def oracle(q, a):
 def run(run):
     rng = run.rng
     run.do_ties()
-    quick = run.tier == "quick"
+    quick = run.quick
     rmax = 3 if quick else 6
     reqs = ["get_res0_cells"]
     cells = [c for r in range(-1, rmax + 1) for c in gen.all_cells(r)]
